@@ -282,6 +282,7 @@ type AV struct {
 	agg   *aggVal
 	fld   bool // R: obtained through FieldByName (exported-ness unknown)
 	fn    *ssa.Function // U: the function value, when known
+	dyn   types.Type // I: the dynamic type, when the value was boxed from a library type with methods
 	tag   string // symbolic origin used by the command-line rule (J-ABS): expr, json(file(flag:input)), ...
 }
 
@@ -443,6 +444,9 @@ func (v AV) writeKeyM(b *strings.Builder, m func(int) int) {
 	}
 	if v.k == 'U' && v.fn != nil {
 		fmt.Fprintf(b, "f%p", v.fn)
+	}
+	if v.dyn != nil {
+		b.WriteString("d" + v.dyn.String())
 	}
 	if v.what != "" && (v.k == 'K' || v.k == 'O' || v.k == 'A' || v.k == 'L') {
 		b.WriteString(v.what)
